@@ -45,6 +45,10 @@ pub struct Ctx {
     progress: Option<*mut u64>,
     trace_path: Option<String>,
     pub check_inputs: bool,
+    /// C01 re-runs the other spaces for totality only: no reference comparison, no laws
+    pub total_only: bool,
+    pub space_tag: Option<String>,
+    pub extra: BTreeMap<String, Value>,
 }
 
 pub fn hash_case(rule: &Value, data: &Value) -> u64 {
@@ -85,6 +89,9 @@ impl Ctx {
             progress: None,
             trace_path: None,
             check_inputs: false,
+            total_only: false,
+            space_tag: None,
+            extra: BTreeMap::new(),
         }
     }
 
@@ -162,6 +169,9 @@ impl Ctx {
     }
 
     pub fn fail(&mut self, sub: &str, case: Value, expected: String, actual: String, site: Option<String>) {
+        if self.total_only && !actual.starts_with("PANIC") {
+            return;
+        }
         self.violation_count += 1;
         if self.violations.len() < MAX_VIOLATIONS_KEPT {
             self.violations.push(Violation { sub: sub.to_string(), case, expected, actual, site });
@@ -171,6 +181,13 @@ impl Ctx {
     /// The central leaf: run the real code on (rule, data), run R, compare per DESIGN Section 2.
     /// Returns the observation so that spaces can add laws on top.
     pub fn check(&mut self, sub: &str, rule: &Value, data: &Value) -> Obs {
+        if self.total_only {
+            let tag = match &self.space_tag {
+                Some(t) => format!("union:{}", t),
+                None => sub.to_string(),
+            };
+            return self.check_total(&tag, rule, data);
+        }
         let obs = self.exec(rule, data);
         let (exp, tr) = refmodel::reference(rule, data);
         self.judge(sub, rule, data, &obs, &exp, &tr, true);
@@ -230,7 +247,7 @@ impl Ctx {
                 bad = Some((format!("Err with log within {:?}", tr.lines), obs.show()));
             }
         }
-        if bad.is_none() && obs.log.iter().any(|l| l.contains("LEAK")) {
+        if bad.is_none() && obs.log.iter().any(|l| l.contains("LEAK")) && !tr.lines.iter().any(|l| l.contains("LEAK")) {
             bad = Some(("no LEAK line (data must stay inert)".into(), obs.show()));
         }
         if *exp != Exp::Unspec {
@@ -244,6 +261,48 @@ impl Ctx {
             self.fail(sub, case(), e, a, site);
         }
         self.sample(|| json!({"rule": rule, "data": data, "reference": exp.show(), "observed": obs.show()}));
+    }
+
+    /// Leaf judged by the space itself (`bad` = expected / actual when the property's own
+    /// clause is broken); does the accounting of `check` without consulting R.
+    pub fn record(&mut self, sub: &str, rule: &Value, data: &Value, obs: &Obs, bad: Option<(String, String)>) {
+        self.leaves += 1;
+        self.note_outcome(sub, obs.class());
+        self.nontrivial.insert(hash_case(rule, data));
+        let bad = match (&obs.out, bad) {
+            (Outcome::Panic(m, l), None) if self.prop == "C01" || self.total_only => Some(("Ok(_) or Err(_)".to_string(), format!("PANIC[{} at {}]", m, l))),
+            (_, b) => b,
+        };
+        if let Some((e, a)) = bad {
+            let site = match &obs.out {
+                Outcome::Panic(_, l) => Some(l.clone()),
+                _ => None,
+            };
+            self.fail(sub, json!({"rule": rule, "data": data}), e, a, site);
+        }
+        self.sample(|| json!({"rule": rule, "data": data, "observed": obs.show()}));
+    }
+
+    /// Leaf for a direct call of a public helper: a panic is always a violation, a wrong
+    /// value only where the property at hand defines it (`want`).
+    pub fn judge_helper(&mut self, sub: &str, case: Value, obs: &Obs, want: Option<&Value>) {
+        self.leaves += 1;
+        self.note_outcome(sub, obs.class());
+        self.nontrivial.insert(hash_str(&case.to_string()));
+        match &obs.out {
+            Outcome::Panic(m, l) => {
+                let (m, l) = (m.clone(), l.clone());
+                self.fail(sub, case, "a return value".into(), format!("PANIC[{} at {}]", m, l), Some(l));
+            }
+            Outcome::Ok(v) => {
+                if let Some(w) = want {
+                    if v != w {
+                        self.fail(sub, case, format!("{}", w), obs.show(), None);
+                    }
+                }
+            }
+            Outcome::Err(_) => {}
+        }
     }
 
     /// A law between several real executions failed.
@@ -265,6 +324,7 @@ impl Ctx {
                 "sub": v.sub, "case": v.case, "expected": v.expected, "actual": v.actual, "site": v.site
             })).collect::<Vec<_>>(),
             "samples": self.samples,
+            "extra": self.extra,
         })
     }
 }
